@@ -65,6 +65,25 @@ Definition shared_with_nested (M : module) (c : cls) : bool :=
   | _, CProc => false
   | _, _ => true
   end.
+(* identifiers that nested scopes put into the dictionaries they share with the module (their
+   imports, model and Spec, and their local declarations): an entry of the module under such a
+   name may have been replaced (C07), so the lower bound skips them *)
+Definition leak_names (c : cls) (g : graph) (order : list str) (M : module) : list str :=
+  flat_map (fun Sc => map fst (nested_imports_model c g order M Sc) ++ map fst (nested_imports c g M Sc)
+                      ++ map d_name (s_decls Sc)) (m_nested M).
+Definition unleaked (c : cls) (g : graph) (order : list str) (M : module) (l : list (str * ent)) :=
+  filter (fun kv => negb (str_in (fst kv) (leak_names c g order M))) l.
+(* the same for a nested scope: names that scopes which are not its hosts put into the shared
+   dictionaries (all_procs is a copy per scope, so class CProc is not affected) *)
+Definition foreign_names (c : cls) (g : graph) (order : list str) (M : module) (Sc : nscope) : list str :=
+  match c with
+  | CProc => []
+  | _ => flat_map (fun H => map fst (nested_imports_model c g order M H) ++ map fst (nested_imports c g M H)
+                           ++ map d_name (s_decls H))
+                  (filter (fun H => negb (prefix_b (s_path H) (s_path Sc))) (m_nested M))
+  end.
+Definition unforeign (c : cls) (g : graph) (order : list str) (M : module) (Sc : nscope) (l : list (str * ent)) :=
+  filter (fun kv => negb (str_in (fst kv) (foreign_names c g order M Sc))) l.
 Definition lookup (n : str) (l : list (str * ent)) : option ent :=
   match find (fun kv => str_eqb (fst kv) n) l with Some kv => Some (snd kv) | None => None end.
 
@@ -80,7 +99,8 @@ Definition model_ok (g : graph) (r : run) : bool :=
                            | Some M =>
                              (negb (o_is_module o) || table_eq (nth_tab (o_pub o) (cls_idx c)) (fst (st_tabs st M)))
                              && (if shared_with_nested M c
-                                 then table_has (nth_tab (o_all o) (cls_idx c)) (snd (st_tabs st M))
+                                 then table_has (nth_tab (o_all o) (cls_idx c))
+                                                (unleaked c g (r_order r) M (snd (st_tabs st M)))
                                  else table_eq (nth_tab (o_all o) (cls_idx c)) (snd (st_tabs st M)))
                            end) (r_units r)
          && forallb (fun q => match find_module g (q_unit q) with
@@ -88,8 +108,11 @@ Definition model_ok (g : graph) (r : run) : bool :=
                               | Some M =>
                                 match find_nested M (q_path q) with
                                 | None => false
-                                | Some Sc => table_has (nth_tab (q_all q) (cls_idx c))
-                                                      (nested_lower_model c g (r_order r) M Sc)
+                                | Some Sc =>
+                                  (* with clashing identifiers the dictionary holds one of them: no claim *)
+                                  negb (functional_b (nested_lower_model c g (r_order r) M Sc))
+                                  || table_has (nth_tab (q_all q) (cls_idx c))
+                                               (unforeign c g (r_order r) M Sc (nested_lower_model c g (r_order r) M Sc))
                                 end
                               end) (r_nested r)
          && forallb (fun f => negb (cls_eqb (f_cls f) c) ||
@@ -100,13 +123,16 @@ Definition model_ok (g : graph) (r : run) : bool :=
                                 | [] => match assoc_get (f_id f) (snd (st_tabs st M)) with
                                         | None => shared_with_nested M c   (* a leak may resolve it: C07 *)
                                                   || opt_eqb ent_eqb None (f_ent f)
-                                        | Some e => opt_eqb ent_eqb (Some e) (f_ent f)
+                                        | Some e => (shared_with_nested M c && str_in (f_id f) (leak_names c g (r_order r) M))
+                                                    || opt_eqb ent_eqb (Some e) (f_ent f)
                                         end
                                 | _ => match find_nested M (f_path f) with
                                        | None => false
                                        | Some Sc =>
-                                         match lookup (f_id f) (nested_lower_model c g (r_order r) M Sc) with
-                                         | Some e => opt_eqb ent_eqb (Some e) (f_ent f)
+                                         match lookup (f_id f) (unforeign c g (r_order r) M Sc
+                                                                  (nested_lower_model c g (r_order r) M Sc)) with
+                                         | Some e => negb (functional_b (nested_lower_model c g (r_order r) M Sc))
+                                                     || opt_eqb ent_eqb (Some e) (f_ent f)
                                          | None => true     (* may still resolve through C07's leaks *)
                                          end
                                        end
@@ -133,7 +159,8 @@ Definition spec_ok (g : graph) (r : run) : bool :=
                          | Some M =>
                            (negb (o_is_module o) || table_is (nth_tab (o_pub o) (cls_idx c)) (accessible c g M))
                            && (if shared_with_nested M c
-                               then table_has (nth_tab (o_all o) (cls_idx c)) (scope c g M)
+                               then table_has (nth_tab (o_all o) (cls_idx c))
+                                              (unleaked c g (r_order r) M (scope c g M))
                                else table_is (nth_tab (o_all o) (cls_idx c)) (scope c g M))
                          end) (r_units r)
        && forallb (fun q => match find_module g (q_unit q) with
@@ -142,7 +169,8 @@ Definition spec_ok (g : graph) (r : run) : bool :=
                               match find_nested M (q_path q) with
                               | None => false
                               | Some Sc => negb (nested_clear g M Sc)
-                                          || table_has (nth_tab (q_all q) (cls_idx c)) (nested_lower_spec c g M Sc)
+                                          || table_has (nth_tab (q_all q) (cls_idx c))
+                                                       (unforeign c g (r_order r) M Sc (nested_lower_spec c g M Sc))
                               end
                             end) (r_nested r)
        && forallb (fun f => negb (cls_eqb (f_cls f) c) ||
@@ -151,10 +179,11 @@ Definition spec_ok (g : graph) (r : run) : bool :=
                             | Some M =>
                               match f_path f with
                               | [] => match lookup (f_id f) (scope c g M) with
-                                      | Some _ => match f_ent f with
-                                                  | Some e => in_b (f_id f) e (scope c g M)
-                                                  | None => false
-                                                  end
+                                      | Some _ => (shared_with_nested M c && str_in (f_id f) (leak_names c g (r_order r) M))
+                                                  || match f_ent f with
+                                                     | Some e => in_b (f_id f) e (scope c g M)
+                                                     | None => false
+                                                     end
                                       | None => match f_ent f with
                                                 | None => true
                                                 | Some _ => shared_with_nested M c   (* C07's leak *)
@@ -164,7 +193,7 @@ Definition spec_ok (g : graph) (r : run) : bool :=
                                      | None => false
                                      | Some Sc =>
                                        negb (nested_clear g M Sc) ||
-                                       match lookup (f_id f) (nested_lower_spec c g M Sc) with
+                                       match lookup (f_id f) (unforeign c g (r_order r) M Sc (nested_lower_spec c g M Sc)) with
                                        | Some e => opt_eqb ent_eqb (Some e) (f_ent f)
                                        | None => true
                                        end
